@@ -1,4 +1,5 @@
-"""Undelete probe (adf_salv.c is not modelled in Lean; this part of C04/C05/C09 is decided on the real code only):
+"""Undelete probe (adf_salv.c: modelled in AdfModel/Salv.lean and tied by `tie_check`; theorems in AdfProps/C04, C05, C18;
+the verdicts on the real code come from the oracles below):
 files and directories are created, some removed, and restored with adfUndelEntry by their block numbers (learnt from a
 first run of the same prefix on the real code).  Judged: the independent decoder on the final image (reachable blocks
 marked used, none leaked), the restored entries are listed and readable with their content, nothing stays allocated."""
@@ -72,9 +73,102 @@ def dircache_spill_case(exe, dt):
                   "free 0 0", f"undel 0 0 880 {sect[b'dd']}", "free 0 0", "list 0 0 1", f"chdir 0 0 {hx(b'dd')}", f"open 1 0 0 {hx(b'in')} 2", "close 1",
                   "toroot 0 0", "usedirc 1", "list 0 0 1", "usedirc 0"]
 
+def conflict_cases(exe, dt, rng):
+    """undeletes that must be REFUSED and must then leave the free map as it was: (a) a data block of the deleted file
+    belongs to another file by now (its header block is still free), (b) the name exists again in the parent (file and
+    directory).  Returns a list of op lists; in each, every `undel` is preceded and followed by `free`."""
+    hx = gen.hx
+    out = []
+    szA = rng.choice([1500, 3000, 40000])
+    # (a) A's data blocks lie BELOW its header: X is removed before A is written, B then takes A's old data blocks
+    pre = gen.prologue(dt, clock=(2019, 9, 9, 9, 9, 9))
+    pre += [f"open 1 0 0 {hx(b'X')} 2", f"write 1 {szA + 500} 1", "close 1",
+            f"open 1 0 0 {hx(b'A')} 2", "close 1",
+            f"open 1 0 0 {hx(b'Y')} 2", "write 1 10 2", "close 1",
+            f"remove 0 0 {hx(b'X')}",
+            f"open 1 0 0 {hx(b'A')} 3", f"write 1 {szA} 3", "close 1", "list 0 0 1"]
+    rc, cb, err = vlib.run_c(exe, pre)
+    if rc == 0:
+        sect = {bytes.fromhex(l.split()[3]): int(l.split()[4]) for l in cb[-1] if l.startswith("E ")}
+        if b"A" in sect:
+            out.append(pre + [f"remove 0 0 {hx(b'A')}", f"open 1 0 0 {hx(b'B')} 2", f"write 1 {rng.choice([600, 1200])} 4", "close 1",
+                              "free 0 0", f"undel 0 0 880 {sect[b'A']}", "free 0 0",
+                              f"mkdir 0 0 {hx(b'dd')}", "list 0 0 1"])
+        if b"A" in sect:
+            # (a2) the FIRST data blocks of A are free again, a later one is taken: the marking loop stops half-way
+            out.append(pre + [f"remove 0 0 {hx(b'A')}",
+                              f"open 1 0 0 {hx(b'B1')} 2", "write 1 600 4", "close 1",
+                              f"open 1 0 0 {hx(b'B2')} 2", "write 1 900 5", "close 1",
+                              f"remove 0 0 {hx(b'B1')}",
+                              "free 0 0", f"undel 0 0 880 {sect[b'A']}", "free 0 0",
+                              f"mkdir 0 0 {hx(b'dd')}", "list 0 0 1"])
+    # (b) the names exist again
+    pre = gen.prologue(dt, clock=(2019, 9, 9, 9, 9, 9))
+    pre += [f"open 1 0 0 {hx(b'Z')} 2", "write 1 600 1", "close 1", f"mkdir 0 0 {hx(b'D')}",
+            f"open 1 0 0 {hx(b'F')} 2", f"write 1 {rng.choice([100, 3000, 40000])} 2", "close 1", "list 0 0 1"]
+    rc, cb, err = vlib.run_c(exe, pre)
+    if rc == 0:
+        sect = {bytes.fromhex(l.split()[3]): int(l.split()[4]) for l in cb[-1] if l.startswith("E ")}
+        if b"D" in sect and b"F" in sect:
+            out.append(pre + [f"remove 0 0 {hx(b'D')}", f"remove 0 0 {hx(b'F')}", f"remove 0 0 {hx(b'Z')}",
+                              f"mkdir 0 0 {hx(b'D')}", f"open 1 0 0 {hx(b'F')} 2", "close 1",
+                              "free 0 0", f"undel 0 0 880 {sect[b'D']}", "free 0 0", f"undel 0 0 880 {sect[b'F']}", "free 0 0",
+                              f"mkdir 0 0 {hx(b'dd')}", "list 0 0 1"])
+    return out
+
+def conflict_probe(exe, seed):
+    bad = []
+    for dt in range(8):
+        rng = vlib.rng_for(seed, f"undelconf/{dt}")
+        for k, ops in enumerate(conflict_cases(exe, dt, rng)):
+            p = os.path.join(vlib.scratch(), f"undelconf_{dt}_{k}.img")
+            rc, cb, err = vlib.run_c(exe, ops + ["unmount 0 0", f"dumpimg 0 {p}", "closedev 0", "allocs"])
+            san = vlib.sanitizer_report(err)
+            if san or rc != 0: bad.append((ops, f"{san or 'harness exit %d' % rc} in a refused-undelete history")); continue
+            for j, o in enumerate(ops):
+                if o.startswith("undel") and "rc=0" not in cb[j][0] and cb[j - 1][0] != cb[j + 1][0]:
+                    bad.append((ops, f"an undelete that reported failure changed the free-block count: {cb[j-1][0]} before, {cb[j+1][0]} after (blocks stay allocated that nothing reaches)"))
+                    break
+            try:
+                img = open(p, "rb").read(); os.unlink(p)
+                for e in fsck.fsck_image(img, 0, 1760).errors[:3]: bad.append((ops, "after a refused undelete: " + e))
+            except OSError: pass
+            if cb[-1] and cb[-1][0] != "= live=0": bad.append((ops, f"after a refused undelete and closing everything the library still holds allocations: {cb[-1][0]}"))
+    return bad
+
+def tie_check(exe, n, seed):
+    """model/code correspondence on the undelete histories (AdfModel/Salv.lean), the refused ones included:
+    list of (ops, first difference)"""
+    import hist
+    out = []; cnt = [0]
+    def one(ops):
+        cnt[0] += 1
+        cb, paths, tie, san, crash, fault = hist.run_plain(exe, ops, lean=True)
+        if tie or fault:
+            out.append((ops, fault or (tie[0], tie[3][tie[0]] if tie[0] < len(tie[3]) else "?", tie[1][:2], tie[2][:2])))
+    for i in range(n):
+        b = build(exe, vlib.rng_for(seed, f"undel/{i}"), i)
+        if not b: continue
+        one([o for o in b[0] if o != "@AGAIN@"] + ["unmount 0 0", "closedev 0"])
+    for dt in (5, 7):
+        ops = dircache_spill_case(exe, dt)
+        if ops: one(ops + ["unmount 0 0", "closedev 0"])
+    for dt in range(8):
+        for ops in conflict_cases(exe, dt, vlib.rng_for(seed, f"undelconf/{dt}")):
+            one(ops + ["unmount 0 0", "closedev 0"])
+    return cnt[0], out
+
+def tie_report(res, exe, n):
+    """used by the checks whose theorems speak about the undelete model: a broken correspondence is a violation"""
+    total, ties = tie_check(exe, n, res.seed)
+    res.cov["undelete_traces_validated_against_impl"] = total - len(ties)
+    if ties:
+        o, d = ties[0]
+        res.violation(f"correspondence broken on {len(ties)} undelete histories: {str(d)[:200]}", dict(kind="correspondence", ops=o, detail=str(d)), False)
+
 def probe(res, exe, n):
     """returns a list of (ops, complaint)"""
-    bad = []
+    bad = conflict_probe(exe, res.seed)
     for dt in (5, 7):
         ops = dircache_spill_case(exe, dt)
         if not ops: continue
